@@ -8,6 +8,7 @@ import (
 	"strings"
 
 	helpers "github.com/SKAARHOJ/rawpanel-lib"
+	monogfx "github.com/SKAARHOJ/rawpanel-lib/ibeam_lib_monogfx"
 	rwp "github.com/SKAARHOJ/rawpanel-lib/ibeam_rawpanel"
 	"google.golang.org/protobuf/proto"
 )
@@ -166,15 +167,78 @@ func tileFreshProcess(a []string) string {
 	return f[2] + " " + f[3] + " " + f[4]
 }
 
+// the caller keeps using a state it has rendered: `mask` says which fillable sub-messages were absent (1 TextStyling,
+// 2 TextStyling.TextFont, 4 TextStyling.TitleFont, 8 Scale; the renderer filled them in), and the caller now edits every
+// field of those.  Whatever it writes there is its own business: no other state's rendering may change.
+func nilSubMessages(p *rwp.HWCText, mask int) {
+	if mask&1 != 0 {
+		p.TextStyling = nil
+	} else if p.TextStyling != nil {
+		if mask&2 != 0 {
+			p.TextStyling.TextFont = nil
+		}
+		if mask&4 != 0 {
+			p.TextStyling.TitleFont = nil
+		}
+	}
+	if mask&8 != 0 {
+		p.Scale = nil
+	}
+}
+
+func mutateFilled(p *rwp.HWCText, mask int) {
+	font := func(f *rwp.HWCText_TextStyle_Font) {
+		if f != nil {
+			f.FontFace = rwp.HWCText_TextStyle_Font_FontFaceE((int(f.FontFace&7)%3 + 1) % 3)
+			f.TextWidth = (f.TextWidth%4 + 1) % 4
+			f.TextHeight = (f.TextHeight%4 + 2) % 4
+		}
+	}
+	if s := p.TextStyling; s != nil {
+		if mask&1 != 0 {
+			s.FixedWidth = !s.FixedWidth
+			s.TitleBarPadding = (s.TitleBarPadding%4 + 1) % 4
+			s.ExtraCharacterSpacing = (s.ExtraCharacterSpacing%4 + 1) % 4
+			s.UnformattedFontSize = (s.UnformattedFontSize%5 + 2) % 5
+		}
+		if mask&3 != 0 {
+			font(s.TextFont)
+		}
+		if mask&5 != 0 {
+			font(s.TitleFont)
+		}
+	}
+	if sc := p.Scale; sc != nil && mask&8 != 0 {
+		sc.ScaleType = rwp.HWCText_ScaleM_ScaleTypeE(int(sc.ScaleType)%4 + 1)
+		sc.RangeLow, sc.RangeHigh = sc.RangeLow-7, sc.RangeHigh+1000
+		sc.LimitLow, sc.LimitHigh = sc.LimitLow+3, sc.LimitHigh-5
+	}
+}
+
 func (e *tileExec) Exec(cmd string, a []string) string {
 	res := ""
 	p := guarded(func() {
 		switch cmd {
 		case "tile.render":
-			// args: the 19 state/geometry tokens + optional flags "also print the RGB565 export", "compare with a fresh process"
+			// args: the 19 state/geometry tokens + optional flags "also print the RGB565 export", "compare with a fresh process",
+			// "first render a sibling state with absent sub-messages and edit what the renderer filled in" (mask)
 			rgb := len(a) > 19 && a[19] == "1"
 			fresh := len(a) > 20 && a[20] == "1" && os.Getenv("VERIF_TILE_CHILD") == ""
+			mut := 0
+			if len(a) > 21 && os.Getenv("VERIF_TILE_CHILD") == "" {
+				mut = atoi(a[21])
+			}
 			t, w, h, shrink, border := textFromArgs(a)
+			var before *monogfx.MonoImg
+			if mut > 0 {
+				t0 := proto.Clone(t).(*rwp.HWCText)
+				i0 := helpers.WriteDisplayTileNew(t0, w, h, shrink, border)
+				before = &i0
+				sib := proto.Clone(t).(*rwp.HWCText)
+				nilSubMessages(sib, mut)
+				helpers.WriteDisplayTileNew(sib, w, h, shrink, border)
+				mutateFilled(sib, mut)
+			}
 			t2 := proto.Clone(t).(*rwp.HWCText)
 			t3 := proto.Clone(t).(*rwp.HWCText)
 			t3.Inverted = !t3.Inverted
@@ -198,6 +262,11 @@ func (e *tileExec) Exec(cmd string, a []string) string {
 			det := bytes.Equal(img.GetImgSlice(), img2.GetImgSlice()) && bytes.Equal(img.GetImgSliceRGB(), img2.GetImgSliceRGB()) &&
 				img.OLEDPixelColor == img2.OLEDPixelColor && img.OLEDBckgColor == img2.OLEDBckgColor &&
 				bytes.Equal(imgB.GetImgSlice(), imgB2.GetImgSlice()) && bytes.Equal(imgC.GetImgSlice(), imgC2.GetImgSlice())
+			if before != nil {
+				// the state rendered before and after the sibling was edited by its owner
+				det = det && bytes.Equal(before.GetImgSlice(), img.GetImgSlice()) && bytes.Equal(before.GetImgSliceRGB(), img.GetImgSliceRGB()) &&
+					before.OLEDPixelColor == img.OLEDPixelColor && before.OLEDBckgColor == img.OLEDBckgColor
+			}
 			if fresh {
 				mine := fmt.Sprintf("%s %d %d", hx(img.GetImgSlice()), img.OLEDPixelColor, img.OLEDBckgColor)
 				det = det && tileFreshProcess(a) == mine
@@ -462,7 +531,19 @@ func genC18(r *Rng, n int, tier string) {
 		rgb := w*h <= 256 || r.Chance(16)
 		// every 12th state is also rendered by a fresh process (after the other font faces were rendered in this one)
 		fresh := r.Chance(8)
-		emit("tile.render", append(tileArgs(t, w, h, shrink, border), rgb, fresh)...)
+		// every 10th state: a sibling with absent sub-messages is rendered first and its owner then edits what the renderer
+		// filled in; mostly the state itself has the same sub-messages absent (it would share a common default object)
+		mut := 0
+		if r.Chance(10) {
+			mut = r.Pick(1, 1, 1, 2, 4, 8, 8, r.Range(1, 15), r.Range(1, 15))
+			if r.Chance(75) {
+				nilSubMessages(t, mut)
+			}
+			if r.Chance(40) {
+				fresh = true
+			}
+		}
+		emit("tile.render", append(tileArgs(t, w, h, shrink, border), rgb, fresh, mut)...)
 	}
 }
 
